@@ -134,6 +134,16 @@ func (conn *Conn) Serve() {
 	log.Debugf("%s: Connection Terminated", conn.sessionid)
 }
 
+// useDataSocket makes socket the data connection of this session and
+// releases the one it replaces (its listener and acceptor, if it was a
+// passive socket nobody connected to).
+func (conn *Conn) useDataSocket(socket DataSocket) {
+	if conn.dataConn != nil {
+		conn.dataConn.Close()
+	}
+	conn.dataConn = socket
+}
+
 // Close will manually close this connection, even if the client isn't ready.
 func (conn *Conn) Close() {
 	//send quit message
